@@ -1652,3 +1652,7 @@ mod tests {
         }
     }
 }
+
+#[cfg(kani)]
+#[path = "/verif/kani/anapaya_edge_tun/fragmenting.rs"]
+mod verif_fragmenting;
